@@ -34,6 +34,14 @@ CHECKS = {
         text="Proofs that the decidable invariant check_inv_sv means exactly the property's structure (disjoint ascending runs, one table per key per run, recency order across containers, exact metadata, unique ids), that optimize_runs and with_new_l0_run/with_dropped/with_merge/with_moved preserve it for all inputs under decidable placement conditions, and the version-file round trip; on every real run check_inv_sv is evaluated on EVERY published superversion, the model's transformations must reproduce the real layouts, and the placement conditions are evaluated on every real step.",
         note=NOTE_TB + "File existence is checked from the directory listing in C20; manifest bytes vs model decoder in C04.",
         design="7/C07", technique="Coq proof (invariant preservation per transformation) + certificate on every dumped version"),
+    "C08": dict(
+        text="Logical blob model (frames, blob files, pointers, GC map; flush with separation, pass-through / relocating / filtering merges, drops, reopen) with a decidable invariant BInv (every pointer resolves to a frame written for its key with the recorded sizes; distinct pointers hit distinct frames) preserved by every transformation under the crate's own eligibility condition for relocation, plus transparency theorems (tables read through their pointers equal the standard tree's flush/merge). Real runs execute the same history on a BlobTree and a standard Tree (and further BlobTrees with other thresholds / file sizes / staleness / age cutoff) and require identical answers; after every step every pointer of the latest version is resolved through the crate's own accessor and compared with the written bytes.",
+        note=NOTE_TB + "Blob compression = None (lz4 feature not in this build); B3 (separation_threshold 0 with empty values) and B5 (relocation of ingested blobs) are proved as refutations and outside the generated configurations.",
+        design="7/C08", technique="Coq proof (pointer-resolution invariant + transparency) + BlobTree-vs-Tree differential"),
+    "C09": dict(
+        text="Proof that BInv's accounting clause (recorded garbage of every blob file = its frames no table entry points to, by brute force) is preserved by flush / merges (using the exact drop-callback log of the stream) / drops / reopen, that stale_blob_bytes is the on-disk sum, that a file is dead iff unreferenced and is gone after the next merge / effective drop. Real runs recompute garbage by brute force from the dumps after every step (all frames ever created minus the frames referenced by the version's tables) and compare with gc_stats(), stale_blob_bytes(), blob_file_count(), across reopen, with histories heavy on overwrite / delete / filter verdicts / drop_range / ingestion / relocation.",
+        note=NOTE_TB + "Known finding K1 (a drop keeps a statistics entry for the file it removed; asserted by the crate's own test) is reported as KNOWN-FINDING.",
+        design="7/C09", technique="Coq proof (accounting invariant over the stream's drop log) + brute-force garbage recomputation on dumps"),
     "C11": dict(
         text="Proof that point reads and scans (all bounds, all pull interleavings) of a structurally sound superversion depend only on its logical content as a multiset of entries (permutation-invariance via the read-path refinement theorems), and that ANY cache / descriptor table that only returns what was inserted under a (tag, tree id, file id, offset) key - any capacity incl. zero, any eviction, shared with other trees - is transparent (loads_independent, shared_cache_isolated, key injectivity). Real runs execute the same history on 4-8 trees with configurations drawn from the whole product (block size, restart interval, hash ratio, partitioning, pinning, filter policy incl. none, cache 0..1MiB, fd table none/1/64) and require identical observations and Spec agreement, and on 3-4 trees that share one tiny cache and descriptor table while holding different data under coinciding table ids.",
         note=NOTE_TB + "quick_cache is modelled as an arbitrary coherent partial map (sound over-approximation), not verified; compression feature (lz4) is not enabled in this build.",
